@@ -100,6 +100,16 @@ pub fn cases(rng: &mut Rng, tier: &str) -> (Vec<Case>, bool) {
                 checks.push(format!("reply-is {} P:{}", ops.len() - 1, hexs(&format!("{}\n", v.unwrap()))));
                 continue;
             }
+            if rng.chance(1, 8) {
+                // a line refused for a syntax error INSIDE the RND call (before its closing parenthesis): no value was
+                // returned, so the generator must not have moved - the next calls show it
+                let text = rng.pick(&["PRINT RND(1", "PRINT RND(1, 2)", "PRINT RND(2 \"A\")", "X = 1 + RND(3", "PRINT RND(1 A)", "PRINT RND(5;)"]);
+                ops.push(format!("start {}", hexs(text)));
+                kinds.insert("refused");
+                checks.push(format!("reply-starts {} err_Syntax.", ops.len() - 1));
+                ops.push("take".to_string());
+                continue;
+            }
             let (text, arg) = match rng.below(12) {
                 0..=2 => ("PRINT RND(1)", 1.0),
                 3 => ("PRINT RND(0)", 0.0),
